@@ -321,7 +321,11 @@ def run_loss(ctx, case):
         q0 = int(r.integers(0, n))
         g = [ref.SX, ref.SY, ref.SZ][int(r.integers(0, 3))] if kind != 'diag-only' else ref.SZ
         errs.append([([q0], g)])
-    ip = nq.qec.knill_laflamme_inner_product(cw, errs)
+    layout = ref.LAYOUTS[(case['prng'] // 7) % len(ref.LAYOUTS)]
+    ctx.label('layout=' + layout)
+    cw_in = ref.with_layout(cw, layout)  # the same code words in another memory layout (e.g. q.T of a QR factor is Fortran ordered)
+    ip = nq.qec.knill_laflamme_inner_product(cw_in, errs)
+    ctx.close(cw_in, cw, 0, 'knill_laflamme_inner_product does not modify the code words')
     want = np.stack([cw.conj() @ apply_pauli(cw, n, {e[0][0][0]: 'XYZ'[[np.allclose(e[0][1], m) for m in (ref.SX, ref.SY, ref.SZ)].index(True)]}).T for e in errs])
     ctx.close(ip, want, 1e-12, 'knill_laflamme_inner_product = <i|E|j>')
     for knd, p in (('L1', 1), ('L2', 2)):
